@@ -24,6 +24,7 @@ macro_rules! kproof_calls {
         #[kani::stub(::anyhow::Error::msg, $mode_msg)]
         #[kani::stub(::anyhow::__private::format_err, $mode_fe)]
         #[kani::stub(std::time::Instant::now, crate::util::stub_instant_now)]
+        #[kani::stub(std::sync::Mutex::lock, crate::util::stub_mutex_lock)]
         pub fn $name() $body
     };
 }
